@@ -114,12 +114,12 @@ def adjustByOffset (l : Loc) (offset : Int) : E Loc :=
     match l with
     | .simple p => do pure (.simple (← adj p))
     | .compound [] => throw "IndexError"
-    | .compound (p :: rest) => do
-      if l.strand == .rev then
-        if p.hi ≠ l.end then throw "assertion"
-      else
-        if p.lo ≠ l.start then throw "assertion"
-      pure (.compound ((← adj p) :: rest))
+    | .compound (p :: rest) =>
+      -- the first part is the first exon; it is at the edge of the location unless the location
+      -- crosses the origin
+      if !bridgesOrigin l && (if l.strand == .rev then decide (p.hi ≠ l.end) else decide (p.lo ≠ l.start)) then
+        throw "assertion"
+      else do pure (.compound ((← adj p) :: rest))
 
 /-- `frameshift_location_by_qualifier(location, start, undo)` with `start` the 1-based codon start -/
 def frameshift (l : Loc) (start1 : Int) (undo : Bool) : E Loc :=
@@ -716,12 +716,14 @@ def addCand (r : Rec) (c : Cand) : E Rec := do
   pure { r with cands := insertAt r.cands i c,
                 regs := r.regs.map fun g => { g with cands := shiftFrom i g.cands } }
 
-/-- the insertion index of `Record.add_region`: before the first existing region it is smaller than -/
+/-- the insertion index of `Record.add_region`: before the first existing region it is smaller than;
+    every existing region is checked for overlap, also those after that position -/
 def regionIndex (g : Reg) : List Reg → Nat → E Nat
   | [], i => pure i
   | e :: rest, i =>
     if locationsOverlap g.feat.loc e.feat.loc then throw "value-error"
-    else if areaLt g.feat.loc e.feat.loc then pure i
+    else if areaLt g.feat.loc e.feat.loc then
+      (if rest.any (fun x => locationsOverlap g.feat.loc x.feat.loc) then throw "value-error" else pure i)
     else regionIndex g rest (i + 1)
 
 /-- `Record.add_region` -/
